@@ -122,6 +122,19 @@ def run_case(case):
                                'msg': 'trace process %s exited %s with %d/%d records' % (
                                    config[0], code, len(records), last - first)})
     ref = results['ref']
+    if first == 0:
+        # deterministic canary for the known finding (consequence of D15 under -O)
+        canary_ref, _ = trace_config(CONFIGS[0], seed, -1, 0)
+        canary_opt, _ = trace_config(next(c for c in CONFIGS if c[0] == 'opt'), seed, -1, 0)
+        stats['canary_runs'] = 1
+        if canary_ref.get(-1, {}).get('digest') != canary_opt.get(-1, {}).get('digest') \
+                and (canary_ref.get(-1, {}).get('d15') or canary_opt.get(-1, {}).get('d15')):
+            violations.append({
+                'mechanism': 'differs-under-O-after-first-cancelscope-leak',
+                'msg': 'canary program (first() with a failing activity and a consumer '
+                       'suspended in its loop body, inside a child task): the event log differs '
+                       'between python and python -O',
+                'case': {'seed': seed, 'first': -1, 'last': 0}})
     sigs = []
     sample = None
     for index in range(first, last):
